@@ -306,8 +306,9 @@ def validate_trace(trace_path, cfg, module, scratch, timeout=900):
         if f.endswith(".tla") or f.endswith(".cfg"):
             shutil.copy(os.path.join(ROOT, "spec", f), d)
     shutil.copy(trace_path, os.path.join(d, "trace.ndjson"))
+    # long traces make the specification's recursive operators recurse deeply: a larger thread stack
     p = subprocess.run(["timeout", str(timeout), "tlc", "-workers", "1", "-metadir", os.path.join(d, "md"), "-config", cfg + ".cfg", module],
-                       cwd=d, capture_output=True, text=True)
+                       cwd=d, capture_output=True, text=True, env=dict(os.environ, JAVA_TOOL_OPTIONS="-Xss512m"))
     out = p.stdout
     hw = 0
     for m in re.finditer(r'<<"HW", (\d+)>>', out):
